@@ -187,6 +187,20 @@ fn backend<B: Backend>(opts: &Opts, rep: &mut Report) {
                 if opts.mine(idx) {
                     probe_case::<B>(rep, &other, "wrong-key", &tok, aad);
                     probe_case::<B>(rep, &kp, "wrong-assertion", &tok, b"another assertion");
+                    // keys one bit away from the right one, each tried right after the right key has unsealed
+                    // the token on this thread (what the right key derived must not serve the wrong one)
+                    if let KeyPair::Local(_) = &kp {
+                        let raw = kp.raw().0;
+                        for byte in 0..raw.len() {
+                            let mut r2 = raw.clone();
+                            r2[byte] ^= 1 << ((byte + len) % 8);
+                            let k2 = KeyPair::<B>::from_raw(Purp::Local, &r2).unwrap();
+                            DECODE_OK.with(|d| d.set(true));
+                            let _ = guard(|| unseal_probe::<B>(&kp, &tok, aad));
+                            take_events();
+                            probe_case::<B>(rep, &k2, "one-bit-key-after-right-key", &tok, aad);
+                        }
+                    }
                     // too short: header only, and every length below the minimum
                     let (hdr, body, _) = split_token(&tok);
                     for l in [0usize, 1, 15, 16, 31, 32, 47, 63, 64, 79, 95, 96, 255].iter().filter(|l| **l < body.len()) {
@@ -207,7 +221,7 @@ pub fn run(opts: &Opts) {
     for_backends!(opts, backend, opts, &mut rep);
     rep.set(
         "rule",
-        json!("for sealed tokens on all 12 backend x purpose pairs every corruption class of C02 (every single-bit flip of body/footer/assertion, footer/assertion add/remove/replace, boundary shifts, every truncation, extensions), wrong key, wrong assertion and too-short bodies is unsealed twice through a recording Payload type (decoder scripted to succeed, then to fail) and a recording validator; the probes must record nothing, the error must not be PayloadError and must be the same in both runs; positive control: the authentic token yields exactly [decode(claims), validate(claims)]; distinct = distinct (token, assertion, key)"),
+        json!("for sealed tokens on all 12 backend x purpose pairs every corruption class of C02 (every single-bit flip of body/footer/assertion, footer/assertion add/remove/replace, boundary shifts, every truncation, extensions), wrong key, a one-bit-different key per key byte tried right after the right key unsealed the same token, wrong assertion and too-short bodies is unsealed twice through a recording Payload type (decoder scripted to succeed, then to fail) and a recording validator; the probes must record nothing, the error must not be PayloadError and must be the same in both runs; positive control: the authentic token yields exactly [decode(claims), validate(claims)]; distinct = distinct (token, assertion, key)"),
     );
     rep.set("not_monitored", json!(["'the unverified footer is reachable only through the accessor named unverified' is a statement about the API surface, not about executions"]));
     rep.finish(opts);
